@@ -8,6 +8,7 @@ import logging
 import hashlib
 import json
 import os
+import itertools
 import urllib.parse
 import uuid as uuid_mod
 
@@ -1279,6 +1280,30 @@ def _correspond(ctx):
     run_sequences(ctx, res3, seqs3, known_classes=known)
     results.append(res3)
     marks.append(("same-name", time.time() - t_start))
+
+    # ---- suite 3b: seed flows with every arrangement of proxy-only names in the viewer's request
+    res3b = CorrResult(suite="caps: seed request/response rewriting, every arrangement of the requested names (impl vs extracted model)",
+                       rule="one session/region; every subset of {Prox, Px2, Px3} registered as proxy-only caps (8) x every duplicate-free "
+                            "list of length <= 4 over {A, Prox, Px2, Px3, GetTexture} plus lists with a repeated name (proxy-only names "
+                            "adjacent, at the ends, separated, repeated) as the viewer's Seed request, followed by the simulator's response: "
+                            "request sent upstream, rewritten response and complete state compared with the model after every op and "
+                            "judged by the statement (proxy-only names stripped upstream, presented in the response, granted caps preserved)")
+    pool = ["A", "Prox", "Px2", "Px3", "GetTexture"]
+    reqs = [list(t) for k in range(0, 5) for t in itertools.permutations(pool, k)]
+    reqs += [["Prox", "Prox"], ["Prox", "Px2", "Prox"], ["Px2", "Px2", "Px3", "A"], ["A", "Prox", "Prox", "Px2"]]
+    if not ctx.thorough:
+        reqs = [r for j, r in enumerate(reqs) if len(r) <= 3 or j % 3 == ctx.seed % 3]
+    seqs3b = []
+    for mask in range(8):
+        regs = [n for b, n in enumerate(["Prox", "Px2", "Px3"]) if mask >> b & 1]
+        for rq in reqs:
+            ops = [("CS", 1, [], 11, SEED00, 5)] + [("RP", 0, 0, n) for n in regs] + [
+                ("RQ", SEED00, rq), ("RE", 0, 200, [("A", sv(U1)), ("GetTexture", sv(U3))])]
+            seqs3b.append((ops, 0))
+    known.update({})
+    run_sequences(ctx, res3b, seqs3b, known_classes=known)
+    results.append(res3b)
+    marks.append(("seed-arrangements", time.time() - t_start))
 
     # ---- suite 4: exhaustive one-region/one-name family
     results.append(family_suite(ctx))
